@@ -941,3 +941,37 @@ Q(name="e2_chunks_next_eos", props=["C01", "C11"], func=r"recv\.rs:256:1[^>]*>::
   functions=["Chunks::next"], pre=cn_pre, post=cn_post,
   bounds="every Recv state (final size known or not, any end / bytes_read), every outcome of Assembler::read (opaque; it may only touch the assembler): Ok(None) is returned exactly when no chunk is available, the final size is known, equals the highest received offset and equals the bytes consumed",
   replay=("streams_chunks_next_eos_native", lambda m: [dict(gap=1, ordered=1), dict(gap=1, ordered=0), dict(gap=0, ordered=1), dict(gap=0, ordered=0)]))
+
+
+# ------------------------------------------------------------------ C19: probing for GSO support leaves no socket-wide segmentation behind
+I32 = ("bv", 32, True)
+
+
+def gso_post(c, p):
+    st = p.p.state
+    sets = [x for x in st.calls if re.search(r"set_socket_option$", x[0])]
+    # model of the socket option: None = untouched (off), else the last value a SUCCESSFUL call stored;
+    # a failed or unchecked call may or may not have stored its value
+    conj = []
+    may_be_on = "false"
+    for x in sets:
+        lvl, name, val = x[1][1], x[1][2], x[1][3]
+        if lvl[0] != "val" or name[0] != "val" or val[0] != "val":
+            return "false"
+        is_seg = and_(eq(lvl[1].t, bv(17, 32)), eq(name[1].t, bv(103, 32)))       # SOL_UDP, UDP_SEGMENT
+        nonzero = not_(eq(val[1].t, bv(0, 32)))
+        okk = eq(c.ex.read_key(st, x[2] + "#discr", I64).t, bv(0))
+        # after this call: on if it set a non-zero size and succeeded; off if it set zero; else unchanged
+        may_be_on = ite(is_seg, ite(nonzero, ite(okk, "true", may_be_on), "false"), may_be_on)
+    conj.append(not_(may_be_on))
+    # and segmentation is only advertised when the probe succeeded
+    ret = c.ex.read_key(st, "_0", BV64).t
+    first_ok = eq(c.ex.read_key(st, sets[0][2] + "#discr", I64).t, bv(0)) if sets else "false"
+    conj.append(imp("(bvugt %s %s)" % (ret, bv(1)), first_ok))
+    return and_(*conj)
+
+
+Q(name="e2_gso_probe_leaves_socket_clean", props=["C19"], crate="quinn-udp", func=r"^max_gso_segments$",
+  functions=["gso::max_gso_segments"], pre=lambda c: "true", post=gso_post,
+  bounds="every outcome of the kernel-version check and of each setsockopt (opaque FFI): when the function returns, no successful UDP_SEGMENT setsockopt with a non-zero size is the last one - transmits that carry no UDP_SEGMENT control message are therefore never segmented by the kernel; assumption: switching the option off right after it was switched on does not fail (the code ignores that result)",
+  replay=("udp_gso_probe_native", lambda m: [dict(x=0)]))
